@@ -596,7 +596,34 @@ def safe_impl(prop, inp):
         return Err("DRIVER:" + type(e).__name__ + ":" + msg)
 
 
+@contextlib.contextmanager
+def gen_lock():
+    """Serialises whole runs of the properties whose proofs depend on coq/Gen/*.v (tie T): such a run
+    rewrites and recompiles generated files that another such run may be reading."""
+    path = os.path.join(COQ, ".gen.lock")
+    with open(path, "w") as f:
+        fcntl.flock(f, fcntl.LOCK_EX)
+        try:
+            yield
+        finally:
+            fcntl.flock(f, fcntl.LOCK_UN)
+
+
 def run_property(prop_id, tier="quick", seed=0, verbose=True):
+    prop = load_prop(prop_id)
+    uses_gen = hasattr(prop, "translate")
+    if not uses_gen:
+        try:
+            uses_gen = any(f.startswith("Gen/") for f in coq_closure(prop.COQ["property_file"]))
+        except Exception:
+            uses_gen = True
+    if uses_gen:
+        with gen_lock():
+            return _run_property(prop_id, tier, seed, verbose)
+    return _run_property(prop_id, tier, seed, verbose)
+
+
+def _run_property(prop_id, tier="quick", seed=0, verbose=True):
     t0 = time.time()
     logs = []
 
